@@ -125,7 +125,7 @@ def decide(prop, tier, jobs, only, relock, seed, t0):
             K.prepare_crate(scratch)
             logfile = os.path.join(scratch, "kani.log")
             hto = QUICK_HARNESS_TIMEOUT if tier == "quick" else THOROUGH_HARNESS_TIMEOUT
-            harnesses = [o["harness"] for o in kobs]
+            harnesses = [o["harness"] for o in kobs if o["kind"] != "native-check"]
             log("[kani] %d harnesses, -j %d, harness timeout %ds" % (len(harnesses), jobs, hto))
             rc, out, secs, timed_out = K.run_kani(scratch, harnesses, logfile, timeout=hto * 3 + 600, jobs=jobs, harness_timeout=hto)
             parsed = K.parse_output(out)
@@ -133,7 +133,8 @@ def decide(prop, tier, jobs, only, relock, seed, t0):
             if not parsed:
                 raise Undecided("cargo kani produced no harness results (rc=%s): %s" % (rc, K.compile_errors(out)))
             for o in kobs:
-                results[o["id"]] = K.classify(o, parsed.get(o["harness"]))
+                if o["kind"] != "native-check":
+                    results[o["id"]] = K.classify(o, parsed.get(o["harness"]))
             # counterexamples for failed obligations, replayed natively against the real code
             native = {}
 
@@ -143,6 +144,11 @@ def decide(prop, tier, jobs, only, relock, seed, t0):
                     native["exe"], native["err"] = R.build_native(scratch)
                 return native["exe"], native.get("err", "")
 
+            # native validation of mechanically generated models (not a verdict on the property:
+            # a disagreement means the extraction is wrong -> undecided, never an alarm)
+            for o in kobs:
+                if o["kind"] == "native-check":
+                    results[o["id"]] = R.native_check(scratch, o, native_exe)
             for o in kobs:
                 r = results[o["id"]]
                 if r["status"] == "failed":
